@@ -274,7 +274,14 @@ def _sink_attribute_copies(tree):
                       any(isinstance(x, ast.Attribute) and isinstance(x.value, ast.Name) and x.value.id == 'self' and x.attr == attr
                           for x in n.targets) and not (isinstance(n.value, ast.Constant) and n.value.value is None)]
             if others:
-                continue
+                # still fine when the definition and the copy are neighbours in one statement list and nothing in between
+                # touches the attribute (other branches may set the attribute in their own way)
+                idx = body.index(st)
+                di = [i for i, x in enumerate(body[:idx]) if x in defs]
+                between = body[di[-1] + 1:idx] if len(di) == len(defs) == 1 else None
+                if between is None or any(isinstance(x, ast.Attribute) and x.attr == attr and isinstance(x.value, ast.Name) and
+                                          x.value.id == 'self' for b in between for x in ast.walk(b)):
+                    continue
             if sum(1 for b, c in copies if c.value.id == t) != 1:
                 continue
 
